@@ -905,6 +905,13 @@ def run(ctx):
         run_history(ctx, gen_perm_sweep(ctx, ip, (subj if not quick else subj[::3]) + MULTI_ENTRY_SUBJECTS), "perm_sweep_multi")
     for ip in ([(U[:2], 1)], [(U, 1)], [("all", 1)]):
         run_history(ctx, gen_perm_sweep(ctx, ip, MULTI_ENTRY_SUBJECTS), "perm_sweep_multi")
+    # issuers whose entries have MIXED budgets, one of them exhausted (only a self-signed authority can carry such entries):
+    # the issuing API must refuse what the exhausted entry would have to allow
+    for root_perm in ([(U[:2], 0), (U[2:], 2)], [(U[:1], 1), (U[1:], 0)], [(U[:2], 0), ("all", 1)]):
+        for want in ([(U[:2], 1)], [(U[:1], 1), (U[1:3], 1)]):
+            h = init_api_history(ctx, root_perm, want, 2)
+            if h is not None:
+                run_history(ctx, h, "init_api_mixed_budget")
     for root_perm in ([("all", 1)], [("all", 2)], [("all", 3)], [(U[:3], 1)], [(U[:3], 2)], [(U[:3], 3)],
                       [(U[:2], 2), (U[2:], 1)], [("all", 2), (U[:1], 1)]):
         for want in ([(U[:2], 1)], [("all", 1)], [(U[:1], 1), (U[1:3], 1)]):
